@@ -528,6 +528,9 @@ class Interp:
                 return Z(t, z3.Concat(*us) if len(us) > 1 else us[0])
             if o.kind == "obj" and t.kind == "ref":
                 return self.freeze(st, v)
+        if isinstance(v, DDList) and t.kind in ("seq", "dyn"):
+            z = self.dd_seq(st, v)
+            return z if t.kind == "seq" and t.args[0].kind == "dyn" else self.to_z(st, z, t)
         if isinstance(v, PyTuple) and t.kind == "ref" and all(isinstance(x, Z) and x.t.kind == "ref" for x in v.items):
             tt = T("tuple", tuple(x.t for x in v.items))
             return self.tuple_as_ref(st, self.to_z(st, v, tt), t)
